@@ -70,6 +70,8 @@ class Run:
         self.before_step: Callable[["Run"], None] | None = None
         self.after_step: Callable[["Run", Any], None] | None = None
         self.step_bound_hit = False
+        self.phase = "idle"
+        self.inflight: dict[str, Any] | None = None
         self.unacked: dict[int, Any] = {}
         if world is None:
             tasks.reset_ledger()
@@ -93,6 +95,8 @@ class Run:
     def deliver(self, row: dict[str, Any], lose_ack: bool = False) -> Any:
         w = self.w
         self.steps += 1
+        self.phase = "handle"
+        self.inflight = row
         w.set_ctx(self.steps, row["type"])
         w.make_only_due(row["id"])
         m = w.queue.poll_one()
@@ -113,7 +117,9 @@ class Run:
             self.unacked[row["id"]] = m
             self.schedule.redelivered += 1
         else:
+            self.phase = "ack"
             w.queue.ack(m)
+        self.phase = "idle"
         self.deliveries.append((self.steps, row["type"], row["id"], not lose_ack))
         return m
 
